@@ -935,6 +935,15 @@ impl Interp {
                 let mut tags = stmt_tags(&s, &self.model.committed);
                 tags.extend(self.history_tags(&s, &self.model.committed));
                 if !self.txns.is_empty() {
+                    if let Stmt::DropTable { table } = &s {
+                        let touched = |e: &Effect| match e {
+                            Effect::Insert { table: t, .. } | Effect::Update { table: t, .. } | Effect::Delete { table: t, .. } | Effect::AddUnique { table: t, .. } => t == table,
+                            _ => false,
+                        };
+                        if self.txns.values().any(|t| t.effects.iter().any(touched)) {
+                            tags.push("ddl.drop_table_with_open_writer".into());
+                        }
+                    }
                     if matches!(s, Stmt::Update { .. }) {
                         tags.push("update.concurrent".into());
                     }
@@ -1027,6 +1036,12 @@ impl Interp {
                 let mut tags = stmt_tags(&stmt, &txn.view);
                 tags.push("txn.session".into());
                 tags.extend(self.history_tags(&stmt, &txn.view));
+                if let Stmt::Delete { table, .. } = &stmt {
+                    tags.push("delete.in_txn".into());
+                    if txn.view.tables.get(table).map(|t| !t.def.uniques.is_empty()).unwrap_or(false) {
+                        tags.push("delete.in_txn_on_unique_table".into());
+                    }
+                }
                 if matches!(stmt, Stmt::Update { .. }) {
                     tags.push("update.in_session".into());
                     if self.txns.len() > 1 {
@@ -1225,6 +1240,12 @@ impl Interp {
                     for tg in self.history_tags(&s, &t.view) {
                         tags.push(tg);
                     }
+                    if let Stmt::Delete { table, .. } = &s {
+                        tags.push("delete.in_txn".into());
+                        if t.view.tables.get(table).map(|t| !t.def.uniques.is_empty()).unwrap_or(false) {
+                            tags.push("delete.in_txn_on_unique_table".into());
+                        }
+                    }
                     if let Stmt::Delete { table, pred } = &s {
                         if let Some(tb) = t.view.tables.get(table) {
                             if tb.rows.iter().any(|(id, r)| self.updated_rows.contains(&(table.clone(), *id)) && pred.eval(r) == Some(true)) {
@@ -1321,6 +1342,12 @@ impl Interp {
                 None
             }
             Step::Flush => {
+                if self.txns.values().any(|t| t.wrote) {
+                    if self.skip_if_excluded(&["admin.flush_with_open_writer".to_string()]) {
+                        return None;
+                    }
+                    self.tags.insert("admin.flush_with_open_writer".into());
+                }
                 self.trace(format!("[{i}] flush"));
                 self.tags.insert("admin.flush".into());
                 match self.db.flush() {
